@@ -190,6 +190,45 @@ def yield_decoders(F):
     return out
 
 
+def keeps_nonempty(units, top, is_emit):
+    """how a drain selects the buckets it reports, over its bodies `units` (the drain `top`, its closures, helpers): 'keep-iff-count>0' when a
+    filter closure returns count() > 0 / != 0, or when the emission (statements satisfying is_emit) sits only on the count() > 0 side of a
+    branch in front of it; otherwise a description of what was found (None: no test of the count at all)"""
+    res = None
+    for cb in units:
+        pr = Prov(cb)
+        emit_blocks = [i for i in cb.live_blocks() for s_ in cb.stmts(i) if is_emit(s_)]
+        for i in cb.live_blocks():
+            for s_ in cb.stmts(i):
+                if not (s_["k"] == "assign" and s_["rv"]["k"] == "binop" and s_["rv"]["op"] in ("Gt", "Ne", "Eq", "Lt", "Le", "Ge")):
+                    continue
+                ao, bo = pr.operand(s_["rv"]["a"]), pr.operand(s_["rv"]["b"])
+                ka, kb = op_const(s_["rv"]["a"]) or {}, op_const(s_["rv"]["b"]) or {}
+                is_count = lambda o: any(x[0] == "call" and cb.term(x[1])["callee"]["name"] == "count" for x in o)
+                op = s_["rv"]["op"]
+                cls_ = None     # 'positive' (true iff count > 0) or 'zero' (true iff count == 0)
+                if is_count(ao) and kb.get("int") == 0:
+                    cls_ = {"Gt": "positive", "Ne": "positive", "Eq": "zero", "Le": "zero"}.get(op)
+                elif is_count(bo) and ka.get("int") == 0:
+                    cls_ = {"Lt": "positive", "Ne": "positive", "Eq": "zero", "Ge": "zero"}.get(op)
+                elif is_count(ao) and kb.get("int") == 1:
+                    cls_ = {"Ge": "positive", "Lt": "zero"}.get(op)
+                if cls_ is None:
+                    continue
+                if s_["lhs"]["l"] == 0 and cb.locals[0]["ty"] == "bool" and cb is not top:
+                    res = "keep-iff-count>0" if cls_ == "positive" else "keep-iff-count==0"
+                else:
+                    t = cb.term(i)
+                    if t["k"] == "switch" and emit_blocks:
+                        tg = {v: tb for v, tb in t["targets"]}
+                        t_false, t_true = tg.get(0), t["otherwise"]
+                        pos_t, zero_t = (t_true, t_false) if cls_ == "positive" else (t_false, t_true)
+                        on_pos = all(ab in cb.reachable(pos_t, avoid=[i]) for ab in emit_blocks)
+                        on_zero = any(ab in cb.reachable(zero_t, avoid=[i]) for ab in emit_blocks) if zero_t is not None else True
+                        res = "keep-iff-count>0" if on_pos and not on_zero else "emission-not-guarded-by-count>0"
+    return res
+
+
 def helper_roles(F):
     """private helpers of the histogram module by role: the scaling pair (f64 result computed as x * K / x / K with a constant K)
     and the function that returns the shared bucket configuration"""
